@@ -227,7 +227,7 @@ func TestSim(t *testing.T) {
 			Replay string `json:"replay,omitempty"`
 		}
 		rec := outRec{Result: res}
-		if sig := firstSig(res); sig != "" && rdir != "" && res.Infra == "" {
+		if sig := firstSig(res); sig != "" && rdir != "" && res.Infra == "" && !knownSig(sig) {
 			rec.Replay = writeReplay(t, rdir, res, tier, !shrunk[sig] && len(shrunk) < 3)
 			shrunk[sig] = true
 		}
@@ -264,4 +264,19 @@ func replayMain(t *testing.T, path string) {
 		"reproduced": sig == rf.Signature && sig != "", "exact": res.LogHash == rf.LogHash}
 	js, _ := json.Marshal(out)
 	fmt.Println("REPLAY-RESULT " + string(js))
+}
+
+// knownSig reports whether sig is listed in SIM_KNOWN_SIGS (signatures of known findings, for
+// which no replay file is produced again: the committed exemplar stands for them).
+func knownSig(sig string) bool {
+	var sigs []string
+	if err := json.Unmarshal([]byte(os.Getenv("SIM_KNOWN_SIGS")), &sigs); err != nil {
+		return false
+	}
+	for _, s := range sigs {
+		if s == sig {
+			return true
+		}
+	}
+	return false
 }
